@@ -148,18 +148,26 @@ def finish(prop, tier, seed, obs, meta, t0, replay_fn=None):
         seen.add(text)
         n = sum(1 for _, t in kf if t == text)
         out_lines.append("KNOWN-FINDING: property=%s %s (%d witness obligation(s))" % (prop, text, n))
-    replays = []
+    # one VIOLATION line per function under contract: the first failed
+    # obligation is replayed, the others are listed in its replay file
+    groups = {}
     for o in viol:
+        groups.setdefault(o.fn or o.name, []).append(o)
+    for key, grp in groups.items():
+        o = grp[0]
         path = replay_fn(o) if replay_fn else write_replay(prop, o, None)
-        replays.append(path)
         suffix = ""
         try:
             rj = json.load(open(path))
+            if len(grp) > 1:
+                rj["also_failed"] = [g.to_json() for g in grp[1:]]
+                json.dump(rj, open(path, "w"), indent=1)
             if not rj.get("failing_input"):
                 suffix = " no-failing-input-found"
         except Exception:
             suffix = " no-failing-input-found"
-        out_lines.append("VIOLATION property=%s replay=%s obligation=%s%s" % (prop, path, o.name, suffix))
+        more = " (+%d more obligations of the same function)" % (len(grp) - 1) if len(grp) > 1 else ""
+        out_lines.append("VIOLATION property=%s replay=%s obligation=%s%s%s" % (prop, path, o.name, more, suffix))
     for o, why in undec:
         out_lines.append("UNDECIDED property=%s obligation=%s reason=%s" % (
             prop, o.name if o else "-", " ".join(why.split())[:300]))
